@@ -24,6 +24,7 @@ Theorem C01_selection_to_value : forall (S E : Type) (argsort : list E -> list Z
     /\ List.Forall (fun k => (k < length srcs)%nat) (map (fun q => Z.to_nat (fst q)) t2)
     /\ List.Forall (fun e => (e < length ev2)%nat) (map (fun q => Z.to_nat (snd q)) t2)
     /\ forall (erfR : R -> R) opa N ns a_k (f0 : rfactor) (fs : list rfactor),
+         length a_k = length srcs -> Rsum a_k <> 0 ->
          let src_idxs := map (fun q : Z * Z => Z.to_nat (fst q)) t2 in
          let evt_idxs := map (fun q : Z * Z => Z.to_nat (snd q)) t2 in
          (length (snd (fst f0)) = length evt_idxs /\ length (snd f0) = length ev2) ->
@@ -36,14 +37,18 @@ Theorem C01_selection_to_value : forall (S E : Type) (argsort : list E -> list Z
                         (map (fun i => row_ratio i (nth i evt_idxs 0%nat) f0 fs)
                              (seq 0 (length evt_idxs)))))
                   (seq 0 (length ev2))).
-Proof. exact selection_to_value. Qed.
+Proof. exact selection_to_value_guarded. Qed.
 Print Assumptions C01_selection_to_value.
 
 
-(* non-vacuity: the hypotheses are satisfiable — no method, one source, the
-   identity as argsort-free setting (index field off needs no argsort property
-   beyond the stated one, which `seq` satisfies) *)
+(* non-vacuity: a real selection method (a declination-band criterion on integer
+   "declinations") on two sources satisfies the hypotheses, and so does the
+   intersection of two of them *)
 Example C01_sel_nonvacuous :
-  (forall l : list nat, Permutation (map Z.of_nat (seq 0 (length l))) (map Z.of_nat (seq 0 (length l))))
-  /\ (0 < length [tt])%nat /\ wf_opt (@None (meth unit nat)) (length [tt]).
-Proof. repeat split. intros l. apply Permutation_refl. cbn. lia. Qed.
+  let c := fun (s e : Z) => (Z.abs (e - s) <? 3)%Z in
+  (forall l : list Z, Permutation (map Z.of_nat (seq 0 (length l))) (map Z.of_nat (seq 0 (length l))))
+  /\ (0 < length [10%Z; 20%Z])%nat
+  /\ wf_opt (Some (MBand KDec c)) (length [10%Z; 20%Z])
+  /\ wf_opt (Some (MAnd (MBand KDec c) (MBand KRA c))) (length [10%Z; 20%Z])
+  /\ wf_opt (@None (meth Z Z)) (length [10%Z; 20%Z]).
+Proof. cbv zeta. repeat split. intros l. apply Permutation_refl. cbn. lia. Qed.
